@@ -52,6 +52,7 @@ type c13Case struct {
 	class          []string    // per instance: confirmed root-cause class of a forward divergence
 	confirm        [][2]string // per instance: the confirming (schema, instance)
 	confirmVerdict [][3]string // (schema, instance, importer verdict) of the confirming pairs
+	inconclusive   []bool      // per instance: confirmation could not be completed (blow-up of every retry)
 	revClass       []string    // per instance: confirmed class of a reverse divergence
 	revConfirm     [][3]string // confirming (schema, generated schema, instance) triples
 	skel       *skelCase
@@ -216,8 +217,31 @@ func runC13(c *Cfg) {
 		cases = append(cases, cs)
 	}
 
+	only := os.Getenv("C13_ONLY_CASE") // development aid: file with a schema line + instance lines
+	if only != "" {
+		b, err := os.ReadFile(only)
+		if err != nil {
+			panic(err)
+		}
+		ls := strings.Split(strings.TrimSpace(string(b)), "\n")
+		s, err := parseJV(ls[0])
+		if err != nil {
+			panic(err)
+		}
+		cs := &c13Case{schema: s, schemaTxt: renderJV(s)}
+		for _, it := range ls[1:] {
+			v, err := parseJV(it)
+			if err != nil {
+				panic(err)
+			}
+			cs.insts = append(cs.insts, v)
+			cs.instTxt = append(cs.instTxt, renderJV(v))
+		}
+		cases = []*c13Case{cs}
+	}
+
 	// 2. skeleton cases (internal correspondence with state.finalize)
-	if !c.Focus {
+	if !c.Focus && only == "" {
 		nSkel := c.Pick(500, 3000)
 		for i := 0; i < nSkel; i++ {
 			sk := genSkelCase(r.Sub())
@@ -229,6 +253,9 @@ func runC13(c *Cfg) {
 	// 3. generated schemas with schema-directed and random instances
 	nSchemas := c.Pick(1500, 8000)
 	nInst := c.Pick(8, 10)
+	if only != "" {
+		nSchemas = 0
+	}
 	if c.Focus {
 		nSchemas = c.Pick(4000, 40000)
 	}
@@ -309,7 +336,7 @@ func runC13(c *Cfg) {
 
 	// structural correspondence of the transcribed per-keyword builders (c13_cc.go); its own
 	// random stream, so that the other generators see the same sequence as before
-	if !c.Focus {
+	if !c.Focus && only == "" {
 		c13RunCC(c, NewRng(c.Seed*2654435761+13))
 	}
 
@@ -382,6 +409,11 @@ func c13Emit(c *Cfg, cs *c13Case) {
 		tag := ""
 		if cs.class != nil {
 			tag = cs.class[i]
+		}
+		if cs.inconclusive != nil && cs.inconclusive[i] && tag == "" {
+			// the confirmation probes blew up even when retried alone: counted, never a finding
+			c.Count("verdict-not-compared:confirmation-inconclusive")
+			continue
 		}
 		c.OpTag("O", tag, "valid "+sh+" "+H(it), v)
 		if tag != "" {
